@@ -66,7 +66,7 @@ CFG = {
     ],
     "manifest": {
         "category": "proof",
-        "text": "Unbounded Coq theorems (29, closed under the global context) about a Gallina model of the macros' "
+        "text": "Unbounded Coq theorems (31, closed under the global context) about a Gallina model of the macros' "
                 "argument handling (Macro.v: validate, VersionRange::parse, parse_semver, to_api_endpoint_fn's builder "
                 "sequence, ApiEndpoint::new/new_for_types) and of the doc-comment algorithm (DocComment.v: "
                 "normalize_comment_string, ExtractedDoc::from_attrs): every field of the produced endpoint equals the "
